@@ -17,6 +17,33 @@ from .common import (EXIT_OK, EXIT_VIOLATION, MachineryError, known_findings, sa
                      workdir, write_evidence, write_json)
 
 
+def pool_map(fn, items, par, per_task=40):
+    """Run thread-harness scenarios in worker processes; a worker that does not come back is killed and the run
+    is a machinery error (never a verdict)."""
+    import concurrent.futures as cf
+    import multiprocessing as mp
+    items = list(items)
+    if not items:
+        return []
+    ctx = mp.get_context("fork")
+    ex = cf.ProcessPoolExecutor(max_workers=min(par, len(items)), mp_context=ctx)
+    try:
+        futs = [ex.submit(fn, it) for it in items]
+        budget = per_task * (1 + len(items) // max(1, par)) + 30
+        done, pending = cf.wait(futs, timeout=budget)
+        if pending:
+            raise MachineryError("%d harness scenarios did not finish within %ds" % (len(pending), budget))
+        return [f.result() for f in futs]
+    finally:
+        procs = list(getattr(ex, "_processes", {}).values())
+        ex.shutdown(wait=False, cancel_futures=True)
+        for p in procs:
+            try:
+                p.kill()
+            except Exception:
+                pass
+
+
 class Plan:
     pid = ""
     clauses = []            # clause names of this property (prefix of verdict lines)
@@ -96,7 +123,7 @@ def run(plan, tier, replay_path=None):
     sd = seed()
     pid = plan.pid
     kf = [f for f in known_findings()["findings"] if f["property"] == pid]
-    kf_sigs = {f["signature"]: f for f in kf}
+    kf_sigs = {f["signature"]: f for f in kf}      # a signature excuses any clause of this property it is reported with
     cov = {"states": 0, "transitions": 0, "model_runs": [], "exhaustive": False}
     traces, inputs = [], []
     if replay_path:
